@@ -113,6 +113,95 @@ def regen_consts(ctx):
     return True
 
 
+# ----------------------------------------------------------------------------- T1b: limiter arithmetic translated from the source
+
+LIMITER_FAMILY = ("C01", "C02", "C03", "C04", "C05", "C07", "C08", "C17")
+
+TIE_AUDIT = """Require Import TC.Limiter.Arith TC.Limiter.GenOps TC.Limiter.KeyStep TC.Limiter.Limiter TC.Generated.LimGen TC.Limiter.GenTie.
+From Coq Require Import ZArith Bool.
+Open Scope Z_scope.
+Check gen_calc_is_model : forall Edur B q now tv,
+  0 <= Edur ->
+  let g := gen_calc Edur B q now tv in
+  let c := m_calc Edur B q now tv in
+  let r := snd c in
+  g_allowed g = fst (fst (fst c)) /\\
+  g_write g = (fst (fst (fst c)) && (0 <? q)) /\\
+  g_cas_new g = snd (fst (fst c)) /\\ g_cas_ttl g = snd (fst c) /\\
+  g_nx_new g = snd (fst (fst c)) /\\ g_nx_ttl g = snd (fst c) /\\
+  g_allowed g = allowed r /\\ g_limit g = limit r /\\ g_remaining g = remaining r /\\
+  g_reset_after g = reset_after r /\\ g_retry_after g = retry_after r.
+Check gen_validate_is_model : forall (K : Type) keqb rate (st : Stores.store K) orc rq,
+  rate_limit K keqb rate st orc rq =
+  match gen_validate (r_q rq) (r_B rq) (r_count rq) (r_period rq) with
+  | Some GNegativeQuantity => (st, ErrNegativeQuantity)
+  | Some GInvalidRateLimit => (st, ErrInvalidRateLimit)
+  | None => attempts K keqb max_retries st orc (r_key rq) (rate (r_count rq) (r_period rq)) (r_B rq) (r_q rq) (r_now rq)
+  end.
+Print Assumptions gen_calc_is_model.
+Print Assumptions gen_validate_is_model.
+"""
+
+
+def source_tie(ctx):
+    """T1b.  tools/extract_limiter.py re-translates the arithmetic of rate_limit from /repo's current source into
+    Generated/LimGen.v; Limiter/GenTie.v proves it equal to the hand-written model the limiter theorems are about.
+    * tie proved                       -> recorded in the evidence (model = source for every input, this run);
+    * translator cannot read the source -> text of the last verified tree, recorded; T2 is the only tie;
+    * tie no longer proved              -> the two functions are evaluated on a fixed lattice inside Coq: an input on which they
+      differ is a broken correspondence with that input (the property oracles then look for a failing history); no such
+      input means an equivalent rewrite that the tie's tactics do not see through: recorded, T2 decides."""
+    rc, out = run([sys.executable, os.path.join(VERIF, "tools", "extract_limiter.py")], timeout=60)
+    info = {"translator": "tools/extract_limiter.py", "generated": "coq/Generated/LimGen.v", "theorems": ["gen_calc_is_model", "gen_validate_is_model"]}
+    ctx.coverage["source_tie"] = info
+    if rc != 0:
+        info["status"] = "translator failed"
+        ctx.notes.append("T1b translator failed: " + out.strip()[-300:])
+        return
+    if "fallback" in out:
+        info["status"] = "fallback: source not readable by the translator, text of the last verified tree used"
+        ctx.notes.append("T1b: " + out.strip()[:400])
+    with Lock("coq"):
+        coq_makefile()
+        rc, mout = run(["make", "-j%d" % NPROC, "Limiter/GenTie.vo"], cwd=COQ, timeout=900)
+    if rc == 0:
+        wd = ctx.workdir()
+        fn = os.path.join(wd, "tie_audit.v")
+        with open(fn, "w") as f:
+            f.write(TIE_AUDIT)
+        rc2, aout = run(["coqc", "-q", "-noglob", "-Q", COQ, "TC", fn], timeout=300, cwd=wd)
+        closed = aout.count("Closed under the global context")
+        if rc2 == 0 and closed == 2:
+            info.setdefault("status", "proved: the translated source arithmetic equals the model for every input (axiom-free)")
+        else:
+            info["status"] = "tie compiled but its audit failed"
+            ctx.broken.append("T1b audit: pinned statements of Limiter/GenTie.v no longer match or depend on axioms:\n" + "\n".join(aout.splitlines()[-10:]))
+        return
+    # the tie is not proved for this tree: look for an input on which source and model differ
+    with Lock("coq"):
+        rc, dout = run(["make", "-j%d" % NPROC, "Limiter/GenDiff.vo"], cwd=COQ, timeout=900)
+    if rc != 0:
+        info["status"] = "tie not proved; the translated source does not compile against the model's vocabulary"
+        ctx.notes.append("T1b: Generated/LimGen.v does not compile (%s); T2 is the only tie in this run" % " | ".join(l for l in dout.splitlines() if "Error" in l)[:300])
+        return
+    res = coq_eval(ctx, "tiediff", "Require Import TC.Limiter.GenDiff.",
+                   ["(N.of_nat (List.length disagreements), firstn 3 disagreements)", "(N.of_nat (List.length validate_disagreements), firstn 3 validate_disagreements)"])
+    if res is None:
+        info["status"] = "tie not proved; lattice comparison did not evaluate"
+        ctx.notes.append("T1b: lattice comparison did not evaluate")
+        return
+    zero = all(re.match(r"=\s*\(0%N", r.strip()) for r in res)
+    if zero:
+        info["status"] = "tie NOT proved for this tree, no differing input on the lattice (equivalent rewrite outside the tie's tactics?); T2 decides"
+        ctx.notes.append("T1b: Limiter/GenTie.v no longer compiles against the re-translated source, but source and model agree on the whole "
+                         "comparison lattice (66528 inputs); the behavioural correspondence T2 is the only tie for the limiter arithmetic in this run")
+    else:
+        info["status"] = "source arithmetic differs from the model"
+        ctx.broken.append("T1b: the arithmetic of rate_limit as translated from the current source differs from the model the theorems are about "
+                          "(Limiter/GenTie.v no longer compiles); differing inputs (Edur, max_burst, quantity, now_ns, stored TAT) / (quantity, max_burst, count, period): "
+                          + " || ".join(r[:500] for r in res))
+
+
 # ----------------------------------------------------------------------------- Coq
 
 def coq_makefile():
